@@ -558,7 +558,20 @@ def lock_method(I, lk, name, args, kw):
     raise Unsupported(f'Lock.{name}')
 
 
+def native_call(I, fn, args, kw):
+    """call of a method / constructor of an immutable standard-library value on concrete arguments: executed by CPython"""
+    if any(is_sym(a) or isinstance(a, (PObj, PList, PDict, PSet, JsonText)) for a in list(args) + list(kw.values())):
+        raise Unsupported(f'native call {getattr(fn, "__qualname__", fn)} with symbolic arguments')
+    try:
+        return I.lift(fn(*args, **kw))
+    except (ValueError, TypeError, OverflowError) as e:
+        I.raise_(type(e), str(e))
+
+
 def builtin_method(I, recv, name, args, kw):
+    from .interp import NATIVE_VALUES
+    if isinstance(recv, NATIVE_VALUES):
+        return native_call(I, getattr(recv, name), args, kw)
     if isinstance(recv, LockVal):
         return lock_method(I, recv, name, args, kw)
     if hasattr(recv, 'pyvc_method'):
@@ -1256,7 +1269,7 @@ def fully_concrete(v, seen=None):
     if isinstance(v, PSet):
         return all(fully_concrete(x) for x in v.items)
     if isinstance(v, PDict):
-        return all(g is True and fully_concrete(x) for g, x in v.e.values())
+        return all(not is_sym(k) for k in v.e) and all(g is True and fully_concrete(x) for g, x in v.e.values())
     if isinstance(v, PObj):
         return False
     return True
@@ -1274,10 +1287,17 @@ def reify_concrete(v):
     return v
 
 
-def json_snapshot(I, v):
-    """deep copy of a JSON-serialisable value; raises TypeError (python level) on anything else"""
-    if v is None or isinstance(v, (bool, int, float, str)):
+def json_snapshot(I, v, encoder=None):
+    """deep copy of a JSON-serialisable value; raises TypeError (python level) on anything else.  `encoder`: a JSONEncoder
+    subclass whose default() (real code, interpreted) converts the objects json does not know"""
+    if v is None or isinstance(v, (bool, int, float, str)) and not isinstance(v, enum.Enum):
         return v
+    if encoder is not None and (isinstance(v, PObj) or isinstance(v, enum.Enum) and not isinstance(v, (int, str))
+                                or type(v).__module__ == 'datetime'):
+        dflt = encoder.__dict__.get('default')
+        if dflt is None:
+            I.raise_(TypeError, f'Object of type {describe(v)} is not JSON serializable')
+        return json_snapshot(I, I.call(dflt, [PObj(encoder), v], {}), encoder)
     if isinstance(v, enum.Enum):
         if isinstance(v, (int, str)):
             return v
@@ -1287,13 +1307,13 @@ def json_snapshot(I, v):
     if isinstance(v, JsonText):
         return v
     if isinstance(v, (PList, tuple)):
-        return PList([json_snapshot(I, x) for x in (v.items if isinstance(v, PList) else v)])
+        return PList([json_snapshot(I, x, encoder) for x in (v.items if isinstance(v, PList) else v)])
     if isinstance(v, PDict):
         d = PDict()
         for k, (g, x) in v.e.items():
-            if not isinstance(k, (str, int, float, bool, type(None))):
+            if not isinstance(k, (str, int, float, bool, type(None))) and not (is_sym(k) and k.k in ('str', 'atom')):
                 I.raise_(TypeError, 'keys must be str, int, float, bool or None')
-            d.e[k] = [g, json_snapshot(I, x)]
+            d.e[k] = [g, json_snapshot(I, x, encoder)]
         return d
     I.raise_(TypeError, f'Object of type {describe(v)} is not JSON serializable')
 
@@ -1301,29 +1321,34 @@ def json_snapshot(I, v):
 @model(json.dumps)
 def m_json_dumps(I, args, kw):
     v = args[0]
-    extra = set(kw) - {'skipkeys', 'sort_keys', 'indent'}
+    extra = set(kw) - {'skipkeys', 'sort_keys', 'indent', 'cls'}
     if extra:
         raise Unsupported(f'json.dumps options {extra}')
     sort_keys = bool(kw.get('sort_keys', False))
-    snap = json_snapshot(I, v)
+    snap = json_snapshot(I, v, kw.get('cls'))
     if fully_concrete(snap):
         return json.dumps(reify_concrete(snap), sort_keys=sort_keys, indent=kw.get('indent'))
     I.ctx.trust('json.dumps/json.loads: assumed mutually inverse on JSON-safe values (str keys; None/bool/int/float/str/'
                 'list/dict values; tuples decode as lists); dumps(sort_keys=True) assumed canonical (a function of content)')
     if isinstance(snap, PDict):
         for k in snap.e:
-            if not isinstance(k, str):
+            if not isinstance(k, str) and not (is_sym(k) and k.k in ('str', 'atom')):
                 raise Unsupported('json.dumps of a dict with non-string keys')
     return JsonText(snap, sort_keys)
 
 
-def json_copy(v):
+def json_copy(v, sort_keys=False):
+    """the value json.loads gives back; with sort_keys the text lists the keys in sorted order, and so does the decoded dict"""
     if isinstance(v, PList):
-        return PList([json_copy(x) for x in v.items])
+        return PList([json_copy(x, sort_keys) for x in v.items])
     if isinstance(v, PDict):
         d = PDict()
-        for k, (g, x) in v.e.items():
-            d.e[k] = [g, json_copy(x)]
+        ks = list(v.e.keys())
+        if sort_keys and all(isinstance(k, str) for k in ks):
+            ks = sorted(ks)
+        for k in ks:
+            g, x = v.e[k]
+            d.e[k] = [g, json_copy(x, sort_keys)]
         return d
     return v
 
@@ -1334,7 +1359,7 @@ def m_json_loads(I, args, kw):
     if kw:
         raise Unsupported('json.loads options')
     if isinstance(s, JsonText):
-        return json_copy(s.value)
+        return json_copy(s.value, s.sort_keys)
     if isinstance(s, str):
         try:
             return I.lift(json.loads(s))
@@ -1766,3 +1791,69 @@ import logging as _logging
 @model(_logging.getLogger)
 def m_get_logger(I, args, kw):
     return Foreign(None)
+
+
+# =========================================================================================== operator module
+import operator as _operator
+
+
+def _op_model(astop):
+    def m(I, args, kw):
+        return I.binop(astop(), args[0], args[1])
+    return m
+
+
+for _f, _a in ((_operator.add, ast.Add), (_operator.sub, ast.Sub), (_operator.mul, ast.Mult), (_operator.floordiv, ast.FloorDiv),
+               (_operator.mod, ast.Mod), (_operator.truediv, ast.Div)):
+    _MODELS[_f] = _op_model(_a)
+
+
+def _cmp_model(astop):
+    def m(I, args, kw):
+        return I.compare(astop(), args[0], args[1])
+    return m
+
+
+for _f, _a in ((_operator.lt, ast.Lt), (_operator.le, ast.LtE), (_operator.gt, ast.Gt), (_operator.ge, ast.GtE),
+               (_operator.eq, ast.Eq), (_operator.ne, ast.NotEq)):
+    _MODELS[_f] = _cmp_model(_a)
+
+
+# =========================================================================================== dataclasses
+import dataclasses as _dataclasses
+
+
+@model(_dataclasses.is_dataclass)
+def m_is_dataclass(I, args, kw):
+    v = args[0]
+    if isinstance(v, PObj):
+        return _dataclasses.is_dataclass(v.cls)
+    if isinstance(v, type):
+        return _dataclasses.is_dataclass(v)
+    return False
+
+
+@model(_dataclasses.asdict)
+def m_asdict(I, args, kw):
+    def conv(v):
+        if isinstance(v, PObj) and _dataclasses.is_dataclass(v.cls):
+            d = PDict()
+            for f in _dataclasses.fields(v.cls):
+                if not I.dict_present(v.d, f.name):
+                    # class-level default (the dataclass has a custom __init__ that may leave a field unset)
+                    val = I.obj_getattr(v, f.name)
+                else:
+                    val = v.d.e[f.name][1]
+                d.e[f.name] = [True, conv(val)]
+            return d
+        if isinstance(v, PList):
+            return PList([conv(x) for x in v.items])
+        if isinstance(v, tuple):
+            return tuple(conv(x) for x in v)
+        if isinstance(v, PDict):
+            d = PDict()
+            for k, (g, x) in v.e.items():
+                d.e[k] = [g, conv(x)]
+            return d
+        return v
+    return conv(args[0])
